@@ -190,6 +190,32 @@ impl World {
             _ => {}
         }
     }
+    /// send the current maps of `pids` with their packets interleaved (each transmission keeps its own packet order): two
+    /// PIDs' section state machines advance in lock step
+    pub fn send_pmts_interleaved(&mut self, pids: &[u16], kind: &str, big: bool, rng: &mut Rng) {
+        let base = self.mux.pkts.len();
+        let mut parts: Vec<(u16, Vec<Vec<u8>>)> = vec![];
+        for &pid in pids {
+            let s = if kind == "rep" && self.last_pmt.contains_key(&pid) { self.last_pmt[&pid].clone() } else { self.pmt_section(pid, big, rng) };
+            self.last_pmt.insert(pid, s.clone());
+            let before = self.mux.pkts.len();
+            let style = if s.len() > 150 { rng.below(3) } else { 0 };
+            self.mux.psi(pid, &s, 0, style, rng);
+            parts.push((pid, self.mux.pkts.split_off(before)));
+        }
+        let mut idx = vec![0usize; parts.len()]; let mut first = vec![usize::MAX; parts.len()]; let mut last = vec![0usize; parts.len()];
+        let mut left: usize = parts.iter().map(|p| p.1.len()).sum();
+        while left > 0 {
+            let k = rng.below(parts.len() as u64) as usize;
+            if idx[k] < parts[k].1.len() { let at = self.mux.pkts.len(); if first[k] == usize::MAX { first[k] = at; } last[k] = at;
+                self.mux.pkts.push(parts[k].1[idx[k]].clone()); idx[k] += 1; left -= 1; }
+        }
+        let _ = base;
+        for (k, (pid, _)) in parts.iter().enumerate() {
+            let d = self.pmt_desc(*pid); let v = self.pmts[pid].version;
+            self.notes.push(format!("T|{}|{}|{}|{}|{}|{}", pid, first[k], last[k], kind, v, d));
+        }
+    }
     pub fn live_pmt_pids(&self) -> Vec<u16> { self.progs.iter().filter(|p| p.0 != 0).map(|p| p.1).collect() }
     pub fn finish(self, flags: u64, rng: &mut Rng) -> String {
         let mut chunks: Vec<Vec<u8>> = vec![]; let mut cur: Vec<u8> = vec![];
@@ -209,7 +235,8 @@ pub fn gen_c05(tier: &str, seed: u64, emit: &mut dyn FnMut(String)) {
         let np = if i % 23 == 11 { 2 } else { rng.range(1, 3) as usize };
         let mut w = World::new(&mut rng, if shared { 2 } else { np }, shared);
         w.send_pat("new", 0, &mut rng);
-        for pid in w.live_pmt_pids() { let big = rng.chance(1, 6); w.send_pmt(pid, "new", 0, big, &mut rng); }
+        if i % 5 == 2 && w.live_pmt_pids().len() >= 2 { let l = w.live_pmt_pids(); let big = rng.chance(1, 2); w.send_pmts_interleaved(&l, "new", big, &mut rng); }
+        else { for pid in w.live_pmt_pids() { let big = rng.chance(1, 6); w.send_pmt(pid, "new", 0, big, &mut rng); } }
         w.probes(&mut rng);
         if i % 23 == 11 && w.live_pmt_pids().len() >= 2 {
             // an elementary PID migrates: program 1 drops it, program 2 announces it later (never listed by both at once),
